@@ -9,6 +9,10 @@ package main
 //     `for _, x := range e` clauses inside the method),
 //   - the validation-option flags that dominate the call, with polarity ("+flag" / "-flag"): enclosing
 //     `if` conditions that are conjunctions of flag reads, and preceding `if flag { return … }` statements.
+//   - what the caller does with the error the callee returns (`onErr`): "propagate" when the call is the operand
+//     of a `return`, or sits in `if err := CALL; err != nil { …; return <non-nil> }` (or a naked return of the
+//     named error result), or is `_, err := CALL` directly followed by `return err`; "swallow" when the
+//     `err != nil` branch ends in `return nil` (the method then reports success and stops).
 // Plus one row per method with the set of option flags the method reads at all.
 // Everything the rules cannot read becomes an `unrecognised` row.
 
@@ -28,6 +32,7 @@ func init() { register("Descent", extractDescent) }
 type descentEdge struct {
 	src, dst, via string
 	guards       []string
+	onErr        string // what the caller does with the callee's error: "propagate" | "swallow"
 	pos          string
 }
 
@@ -258,6 +263,97 @@ func extractDescent(repo string) (string, error) {
 				return ok
 			}
 
+			// what happens to the error of a call: call expression -> "propagate" | "swallow" ("" = unreadable)
+			callCtx := map[*ast.CallExpr]string{}
+			namedErr := map[types.Object]bool{}
+			if fd.Type.Results != nil {
+				for _, fld := range fd.Type.Results.List {
+					for _, nm := range fld.Names {
+						if obj := info.Defs[nm]; obj != nil && obj.Type().String() == "error" {
+							namedErr[obj] = true
+						}
+					}
+				}
+			}
+			objOf := func(e ast.Expr) types.Object {
+				id, ok := e.(*ast.Ident)
+				if !ok {
+					return nil
+				}
+				if o := info.Uses[id]; o != nil {
+					return o
+				}
+				return info.Defs[id]
+			}
+			isNilIdent := func(e ast.Expr) bool {
+				id, ok := e.(*ast.Ident)
+				if !ok || id.Name != "nil" {
+					return false
+				}
+				_, isNil := info.Uses[id].(*types.Nil)
+				return isNil
+			}
+			ast.Inspect(fd.Body, func(n ast.Node) bool {
+				switch s := n.(type) {
+				case *ast.ReturnStmt:
+					if len(s.Results) > 0 {
+						if call, ok := s.Results[len(s.Results)-1].(*ast.CallExpr); ok {
+							callCtx[call] = "propagate"
+						}
+					}
+				case *ast.IfStmt:
+					as, ok := s.Init.(*ast.AssignStmt)
+					if !ok || len(as.Rhs) != 1 || len(as.Lhs) == 0 {
+						return true
+					}
+					call, ok := as.Rhs[0].(*ast.CallExpr)
+					if !ok {
+						return true
+					}
+					errObj := objOf(as.Lhs[len(as.Lhs)-1])
+					cond, ok := s.Cond.(*ast.BinaryExpr)
+					if !ok || cond.Op != token.NEQ || errObj == nil || objOf(cond.X) != errObj || !isNilIdent(cond.Y) {
+						return true
+					}
+					if s.Body == nil || len(s.Body.List) == 0 {
+						return true
+					}
+					ret, ok := s.Body.List[len(s.Body.List)-1].(*ast.ReturnStmt)
+					if !ok {
+						return true
+					}
+					switch {
+					case len(ret.Results) == 0:
+						if namedErr[errObj] {
+							callCtx[call] = "propagate"
+						}
+					case isNilIdent(ret.Results[len(ret.Results)-1]):
+						callCtx[call] = "swallow"
+					default:
+						callCtx[call] = "propagate"
+					}
+				case *ast.BlockStmt:
+					for i, st := range s.List {
+						as, ok := st.(*ast.AssignStmt)
+						if !ok || len(as.Rhs) != 1 || len(as.Lhs) == 0 || i+1 >= len(s.List) {
+							continue
+						}
+						call, ok := as.Rhs[0].(*ast.CallExpr)
+						if !ok {
+							continue
+						}
+						ret, ok := s.List[i+1].(*ast.ReturnStmt)
+						if !ok || len(ret.Results) == 0 {
+							continue
+						}
+						if eo := objOf(as.Lhs[len(as.Lhs)-1]); eo != nil && objOf(ret.Results[len(ret.Results)-1]) == eo {
+							callCtx[call] = "propagate"
+						}
+					}
+				}
+				return true
+			})
+
 			seenFlags := map[string]bool{}
 			var walkStmts func(list []ast.Stmt, guards []string)
 			var walkNode func(n ast.Node, guards []string)
@@ -311,7 +407,12 @@ func extractDescent(repo string) (string, error) {
 						return
 					}
 				}
-				edges = append(edges, descentEdge{src: from, dst: dst, via: via, guards: g, pos: where(call)})
+				oe := callCtx[call]
+				if oe == "" {
+					unrec = append(unrec, where(call)+" (error of the call neither returned nor tested)")
+					return
+				}
+				edges = append(edges, descentEdge{src: from, dst: dst, via: via, guards: g, onErr: oe, pos: where(call)})
 			}
 			walkNode = func(n ast.Node, guards []string) {
 				if n == nil {
@@ -406,14 +507,14 @@ func extractDescent(repo string) (string, error) {
 	fmt.Fprintf(&b, "-- rows: %d\n", len(edges)+len(methods)+len(unrec))
 	b.WriteString("namespace KinModel.Gen\n\n")
 	b.WriteString("/-- one child check called by a Validate method -/\n")
-	b.WriteString("structure DescentRow where\n  src : String\n  dst : String\n  via : String\n  guards : List String\n  deriving DecidableEq, Repr\n\n")
+	b.WriteString("structure DescentRow where\n  src : String\n  dst : String\n  via : String\n  guards : List String\n  onErr : String\n  deriving DecidableEq, Repr\n\n")
 	b.WriteString("def descent : List DescentRow := [\n")
 	for i, e := range edges {
 		sep := ","
 		if i == len(edges)-1 {
 			sep = ""
 		}
-		fmt.Fprintf(&b, "  ⟨%s, %s, %s, %s⟩%s -- %s\n", q(e.src), q(e.dst), q(e.via), ql(e.guards), sep, e.pos)
+		fmt.Fprintf(&b, "  ⟨%s, %s, %s, %s, %s⟩%s -- %s\n", q(e.src), q(e.dst), q(e.via), ql(e.guards), q(e.onErr), sep, e.pos)
 	}
 	b.WriteString("]\n\n")
 	b.WriteString("/-- option flags read anywhere in the method -/\ndef descentReads : List (String × List String) := [\n")
